@@ -235,6 +235,7 @@ impl Report {
 
 pub struct Known {
     pub id: String,
+    pub signatures: Vec<String>,
     pub signature: Option<String>,
     pub prefix: Option<String>,
     pub what: String,
@@ -246,6 +247,9 @@ impl Known {
             if s == sig {
                 return true;
             }
+        }
+        if self.signatures.iter().any(|s| s == sig) {
+            return true;
         }
         if let Some(p) = &self.prefix {
             if sig.starts_with(p.as_str()) {
@@ -277,6 +281,11 @@ pub fn load_known(vdir: &str, property: &str) -> Vec<Known> {
             }
             out.push(Known {
                 id: f.get("id").and_then(|s| s.as_str()).unwrap_or("?").to_string(),
+                signatures: f
+                    .get("signatures")
+                    .and_then(|s| s.as_array())
+                    .map(|a| a.iter().filter_map(|x| x.as_str().map(|s| s.to_string())).collect())
+                    .unwrap_or_default(),
                 signature: f.get("signature").and_then(|s| s.as_str()).map(|s| s.to_string()),
                 prefix: f.get("signature_prefix").and_then(|s| s.as_str()).map(|s| s.to_string()),
                 what: f.get("what").and_then(|s| s.as_str()).unwrap_or("").to_string(),
